@@ -424,3 +424,75 @@ func TestVerifC19Regressions(t *testing.T) {
 		},
 	})
 }
+
+// The cache entry is alive when the headers are enriched (If-None-Match is
+// sent) and has expired when the response comes back.
+func TestVerifC19ExpireInFlight(t *testing.T) {
+	vs.RunExhaustive(t, "C19", 10_000, func(c *vs.Case) error {
+		code := []int{200, 304, 412, 500}[c.Int(4)]
+		strict := c.Bool()
+		respEtag := c.PickStr("", `"e1"`, `"e2"`)
+		c.Describe(func() any { return map[string]any{"code": code, "strict": strict, "responseETag": respEtag, "etag": "expires-in-flight"} })
+		calls := 0
+		inm := ""
+		client := &scriptedClient{}
+		client.do = func(req *http.Request) (*http.Response, error) {
+			calls++
+			if calls == 1 {
+				return httpResp(200, etagHdr(`"e1"`), `{"status":{"v":3}}`), nil
+			}
+			inm = req.Header.Get(headerIfNoneMatch)
+			time.Sleep(60 * time.Millisecond) // the 40 ms entry expires while the request is in flight
+			h := http.Header{}
+			if respEtag != "" {
+				h.Set(headerETag, respEtag)
+			}
+			body := `{"status":{"v":9}}`
+			if code != 200 {
+				body = ""
+			}
+			return httpResp(code, h, body), nil
+		}
+		ex := newC19Executor(client, true, 40*time.Millisecond, strict)
+		var warm c19Resp
+		if err := ex.Call(c19Parent(), &warm); err != nil {
+			return fmt.Errorf("harness: warm-up failed: %v", err)
+		}
+		var got c19Resp
+		var err error
+		func() {
+			defer func() {
+				if p := recover(); p != nil {
+					err = vs.Violf("C19/panic", "hook call panicked when the ETag cache entry expired in flight (HTTP %d): %v", code, p)
+				}
+			}()
+			err = ex.Call(c19Parent(), &got)
+		}()
+		if v, ok := err.(*vs.Violation); ok {
+			return v
+		}
+		if inm != `"e1"` {
+			return nil // timing did not produce the situation (entry already gone at enrichment)
+		}
+		c.NonTrivial()
+		switch {
+		case code == 200:
+			if err != nil {
+				return vs.Violf("C19/valid-answer-rejected", "HTTP 200 with a valid body failed: %v", err)
+			}
+			if fmt.Sprint(got.Status["v"]) != "9" {
+				return vs.Violf("C19/wrong-body-decoded", "HTTP 200 body v=9 but decoded %v", got.Status)
+			}
+		case code == 500:
+			if err == nil {
+				return vs.Violf("C19/bad-status-accepted", "HTTP 500 accepted")
+			}
+		default:
+			// 304/412 and the body is gone: an error is the only sound outcome, unless the old body is still returned
+			if err == nil && fmt.Sprint(got.Status["v"]) != "3" {
+				return vs.Violf("C19/304-answered-with-another-body", "304 after the cache entry expired returned %v", got.Status)
+			}
+		}
+		return nil
+	})
+}
